@@ -124,7 +124,9 @@ Definition check_case (c : case) : bool :=
   | Case h days kp cat f limit random sched so eo now skip listdir o_mem o_file o_s3 =>
       let fmt := fmt_of days in
       agree_exact (to_obs mem_id h (model_mem h cat f limit random skip)) o_mem &&
-      agree_exact (to_obs mem_id h (model_file h listdir cat f limit skip)) o_file &&
+      (* os.listdir order is arbitrary: which [limit] recordings are listed is not determined *)
+      agree_card (to_obs mem_id h (model_file h listdir cat f limit skip))
+                 (to_obs mem_id h (model_file h listdir cat f None skip)) o_file &&
       (if Nat.eqb random 1 then
          agree_card (to_obs (s3_id fmt) h (model_s3 h days kp cat f limit 0 sched so eo now skip))
                     (to_obs (s3_id fmt) h (model_s3 h days kp cat f None 0 sched so eo now skip)) o_s3
